@@ -22,7 +22,9 @@ CONSTANTS Sent,        \* sequence of messages (each a sequence of bytes)
           Prefix,      \* 2 or 4
           Cap,         \* largest accepted length
           MaxPend,     \* bound on "pending" answers per behaviour
-          EofYieldsShort \* weakening switch (FALSE in the code): end-of-stream inside a body returns what was gathered
+          EofYieldsShort, \* weakening switch (FALSE in the code): end-of-stream inside a body returns what was gathered
+          MaxGiveUps,     \* bound on read timeouts per behaviour (the caller of the deframer stops waiting)
+          ResumeAfterTimeout  \* deviation (FALSE in the code): after a read timeout the caller goes on reading frames from the same stream
 Concat(ss) == FoldLeft(LAMBDA acc, x : acc \o x, <<>>, ss)
 BE(n, w) == [i \in 1..w |-> (n \div (256 ^ (w - i))) % 256]
 Frame(m) == BE(Len(m), Prefix) \o m
@@ -32,16 +34,17 @@ FromBE(bs) == FoldLeft(LAMBDA acc, b : (acc * 256) + b, 0, bs)
 VARIABLES consumed,   \* bytes of the wire the reader has taken
           chunk,      \* bytes of the current chunk not yet taken
           closed,     \* the transport has signalled end-of-stream
-          phase,      \* "len" | "body" | "err" | "eof"
+          phase,      \* "len" | "body" | "err" | "eof" | "timeout"
           acc,        \* bytes gathered in the current phase
           need,       \* bytes still needed in the current phase
           out,        \* messages returned so far
           pends,      \* pending answers so far
           sched       \* the schedule so far (history; what the harness replays)
-vars == <<consumed, chunk, closed, phase, acc, need, out, pends, sched>>
+VARIABLE giveups
+vars == <<consumed, chunk, closed, phase, acc, need, out, pends, sched, giveups>>
 
 Init == /\ consumed = 0 /\ chunk = 0 /\ closed = FALSE /\ phase = "len" /\ acc = <<>> /\ need = Prefix
-        /\ out = <<>> /\ pends = 0 /\ sched = <<>>
+        /\ out = <<>> /\ pends = 0 /\ sched = <<>> /\ giveups = 0
 Running == phase \in {"len", "body"}
 \* the transport makes k more bytes available
 NewChunk(k) == /\ Running /\ chunk = 0 /\ ~closed /\ consumed + k <= Len(Wire)
@@ -71,7 +74,15 @@ Read == /\ Running /\ chunk > 0
                         ELSE /\ phase' = "body" /\ acc' = <<>> /\ need' = l /\ UNCHANGED out
                    ELSE /\ out' = Append(out, got) /\ phase' = "len" /\ acc' = <<>> /\ need' = Prefix
         /\ UNCHANGED <<closed, pends, sched>>
-Next == (\E k \in 1..Len(Wire) : NewChunk(k)) \/ Pend \/ Close \/ Read
+\* the caller's read timeout fires while the deframer waits for more bytes.  The future of read_framed is dropped, and with it
+\* whatever it had gathered (read_exact is not cancellation safe): the only sound continuation is to give the stream up, which
+\* is what the receiver loop does (it ends and the connection is deregistered).  Going on reading would start a "length" in
+\* the middle of a frame.
+GiveUp == /\ Running /\ chunk = 0 /\ ~closed /\ giveups < MaxGiveUps /\ giveups' = giveups + 1 /\ sched' = Append(sched, -2)
+          /\ IF ResumeAfterTimeout THEN /\ phase' = "len" /\ acc' = <<>> /\ need' = Prefix
+                                   ELSE /\ phase' = "timeout" /\ UNCHANGED <<acc, need>>
+          /\ UNCHANGED <<consumed, chunk, closed, out, pends>>
+Next == (((\E k \in 1..Len(Wire) : NewChunk(k)) \/ Pend \/ Close \/ Read) /\ UNCHANGED giveups) \/ GiveUp
 Spec == Init /\ [][Next]_vars
 
 \* ---- C05
@@ -81,5 +92,5 @@ NoShortMessage == \A i \in 1..Len(out) : out[i] = Sent[i]
 OverCapRefused == \A i \in 1..Len(Sent) : (Len(Sent[i]) > Cap /\ \A j \in 1..(i - 1) : Len(Sent[j]) <= Cap) => Len(out) < i
 \* observable summary of a finished behaviour (what the harness compares)
 Outcome == [out |-> out, state |-> phase, consumed |-> consumed]
-View == <<consumed, chunk, closed, phase, acc, need, out, pends>>
+View == <<consumed, chunk, closed, phase, acc, need, out, pends, giveups>>
 =============================================================================
